@@ -160,6 +160,9 @@ func enterBlock(pred, succ *ssa.BasicBlock, st nilState) nilState {
 		if idx >= 0 && idx < len(phi.Edges) {
 			if n := st.of(phi.Edges[idx]); n != 0 {
 				ns[phi] = int32(n)
+			} else if n := st.of(blockLocalValue(phi.Edges[idx])); n != 0 {
+				// (a variable reloaded right after it was stored: what was stored)
+				ns[phi] = int32(n)
 			} else if k, ok := st.intOf(phi.Edges[idx]); ok {
 				ns[phi] = intBase + int32(k+intBias)
 			}
